@@ -10,6 +10,8 @@ from ..const import CallVal, ConstEval, EnumVal, NameRef, NotConst, module_const
 from ..core import AnalysisError, calls_in, call_name, const_str, dotted, unparse, walk_no_nested
 from ..match import if_chain, inline, kwarg, returns_of, single_assignments
 from ..poly import atoms, poly, poly_of_source, show
+from ..facts import assign_facts, return_facts
+from ..facts import show as show_facts
 from ..report import VERIF, Ctx
 
 LEVEL = "other"
@@ -224,24 +226,33 @@ def r4_rejection(ctx: Ctx) -> None:
     for t in [n for n in walk_no_nested(gm.node) if isinstance(n, ast.Try)]:
         ctx.fail("Bus.get_mapping_for_bank:try", "a handler can turn an unmapped bank into some mapping")
     pa = ctx.repo.func(MAPPING, "Mapping.physical_address")
-    ifs = [s for s in pa.node.body if isinstance(s, ast.If)]
-    ok = False
-    if len(ifs) == 1:
-        t = unparse(ifs[0].test)
-        rom_arm, ram_arm = (ifs[0].body, ifs[0].orelse) if t in ("self.writable is False", "not self.writable") else \
-            (ifs[0].orelse, ifs[0].body) if t in ("self.writable", "self.writable is True") else (None, None)
-        if rom_arm is not None:
-            ok = len(ram_arm) == 1 and isinstance(ram_arm[0], ast.Return) and unparse(ram_arm[0].value) == "None" and \
-                len(rom_arm) == 1 and isinstance(rom_arm[0], ast.Return) and unparse(rom_arm[0].value) != "None"
-    ctx.check(ok, "Mapping.physical_address:ram-has-no-offset", "returns None exactly for writable (RAM) mappings and an offset for ROM")
+    pf = return_facts(pa)
+
+    def ram_cond(c: frozenset) -> bool | None:
+        """True = this return is reached only for writable mappings, False = only for read-only ones"""
+        for t, pol in c:
+            if t == "self.writable is False":
+                return not pol
+            if t in ("self.writable", "self.writable is True"):
+                return pol
+        return None
+
+    none_facts = [f for f in pf if f[0] == "None"]
+    value_facts = [f for f in pf if f[0] != "None"]
+    ok = bool(none_facts) and bool(value_facts) and all(ram_cond(c) is True for _v, c in none_facts) and all(ram_cond(c) is False for _v, c in value_facts)
+    ctx.check(ok, "Mapping.physical_address:ram-has-no-offset", f"returns None exactly for writable (RAM) mappings and an offset for ROM; found: {show_facts(pf)}")
     init = ctx.repo.func(MAPPING, "Mapping.__init__")
     st = {unparse(n.targets[0]): unparse(n.value) for n in walk_no_nested(init.node) if isinstance(n, ast.Assign)}
     P = init.params()
     ctx.check(st.get("self.bank_range") == P[1] and st.get("self.address_range") == P[2] and st.get("self.mask") == P[3] and st.get("self.writable") == P[4],
               "Mapping.__init__:fields", f"fields hold the like-named arguments; found {st}")
     ad = ctx.repo.func(MAPPING, "Address.__add__")
-    tests = [unparse(s.test) for s in walk_no_nested(ad.node) if isinstance(s, ast.If)]
-    ctx.check("physical_address is not None" in tests, "Address.__add__:rom-vs-ram", f"branches on whether the address has a file offset; tests {tests}")
+    af = _add_facts(ad)
+    phys = "self._get_mapping().physical_address(self.logical_value) is None"
+    rom = [f for f in af if (phys, False) in f[1]]
+    ram = [f for f in af if (phys, True) in f[1]]
+    ctx.check(bool(rom) and bool(ram) and len(af) == len(rom) + len(ram), "Address.__add__:rom-vs-ram",
+              f"branches on whether the address has a file offset; found: {show_facts(af)}")
     ai = ctx.repo.func(MAPPING, "Address.__init__")
     st = {unparse(n.targets[0]): unparse(n.value) for n in walk_no_nested(ai.node) if isinstance(n, (ast.Assign, ast.AnnAssign)) for _ in [0] if (isinstance(n, ast.Assign) or n.value is not None)} if False else {}
     for n in walk_no_nested(ai.node):
@@ -259,11 +270,37 @@ def r4_rejection(ctx: Ctx) -> None:
     ctx.count("rejection_facts", 7)
 
 
+def _leaves(p) -> set:
+    """identifier-like leaves (names, attributes, subscripts) mentioned anywhere in a polynomial's atoms"""
+    import re as _re
+    out = set()
+    for a in atoms(p):
+        out |= set(_re.findall(r"[A-Za-z_][A-Za-z_0-9\\.\\[\\]]*", a)) - {"and", "or", "xor", "inv", "shr", "shl", "fdiv", "mod", "div", "pow"}
+    return out
+
+
 REF_FORMULAS = {
     # function -> (parameter name, reference formula over self.* and the parameter)
     "Mapping.physical_address": "((value >> 16) - self.bank_range[0]) * self.mask + (value & ~self.mask & 0xFFFF)",
     "Mapping.logical_address": "((value // self.mask) + self.bank_range[0]) << 16 | (self.mask & 0xFFFF) + value % self.mask",
 }
+
+
+def _add_facts(ad) -> set:
+    """{(new logical address expression, conditions)} of Address.__add__, whichever way it is laid out"""
+    rf = return_facts(ad)
+    out = set()
+    for v, c in rf:
+        if v.startswith("Address(self.bus, ") and v.endswith(")"):
+            inner = v[len("Address(self.bus, "):-1]
+            if inner.isidentifier():
+                for v2, c2 in assign_facts(ad, inner):
+                    out.add((v2, frozenset(c | c2)))
+            else:
+                out.add((inner, c))
+        else:
+            raise AnalysisError(f"Address.__add__: returns `{v[:60]}`, not an Address on the same bus")
+    return out
 
 
 def r5_formula_normal_form(ctx: Ctx) -> None:
@@ -279,23 +316,21 @@ def r5_formula_normal_form(ctx: Ctx) -> None:
         ctx.count("formulas")
         if got == ref:
             ctx.ok(q + ":formula", show(got)[:160])
-        elif atoms(got) == atoms(ref) or True:
+        elif _leaves(got) <= _leaves(ref):
             ctx.fail(q + ":formula", f"computes {show(got)[:200]}; the bus law is {show(ref)[:200]}")
+        else:
+            raise AnalysisError(f"{q}: formula uses terms outside the reference vocabulary ({sorted(_leaves(got) - _leaves(ref))[:4]}); cannot compare")
     ad = ctx.repo.func(MAPPING, "Address.__add__")
-    env = {}
-    for n in walk_no_nested(ad.node):
-        if isinstance(n, ast.Assign) and unparse(n.targets[0]) == "logical_address":
-            env.setdefault("logical_address", []).append(unparse(n.value))
-    la = env.get("logical_address", [])
-    loc = single_assignments(ad.node)
     other = ad.params()[1]
-    ok = len(la) == 2 and la[0] == f"mapping.logical_address(physical_address + {other})" and \
-        show(poly(ast.parse(la[1], mode="eval").body)) == show(poly_of_source(f"self.logical_value + {other}"))
-    ctx.check(ok, "Address.__add__:advance", f"ROM: the address whose offset is offset+n in the same mapping; RAM: address+n; found {la}")
-    ctx.check(unparse(loc.get("mapping")) == "self._get_mapping()" and unparse(loc.get("physical_address")) == "mapping.physical_address(self.logical_value)",
-              "Address.__add__:same-mapping", "offset and inverse use the address's own mapping (stays in the same primary/mirror range)")
-    r = [x for x in returns_of(ad.node)]
-    ctx.check(len(r) == 1 and unparse(r[0].value) == "Address(self.bus, logical_address)", "Address.__add__:result", "a new address on the same bus")
+    af = _add_facts(ad)
+    phys = "self._get_mapping().physical_address(self.logical_value) is None"
+    rom = {v for v, c in af if (phys, False) in c}
+    ram = {v for v, c in af if (phys, True) in c}
+    want_rom = f"self._get_mapping().logical_address(self._get_mapping().physical_address(self.logical_value) + {other})"
+    rom_ok = len(rom) == 1 and show(poly(ast.parse(next(iter(rom)), mode="eval").body)) == show(poly_of_source(want_rom))
+    ram_ok = len(ram) == 1 and show(poly(ast.parse(next(iter(ram)), mode="eval").body)) == show(poly_of_source(f"self.logical_value + {other}"))
+    ctx.check(rom_ok, "Address.__add__:advance-rom", f"ROM: the address whose offset is offset+n in the address's own mapping; found {sorted(rom)}")
+    ctx.check(ram_ok, "Address.__add__:advance-ram", f"RAM: address+n; found {sorted(ram)}")
     ph = ctx.repo.func(MAPPING, "Address.physical")
     r = returns_of(ph.node)
     ctx.check(len(r) == 1 and unparse(r[0].value) == "self.mapping.physical_address(self.logical_value)", "Address.physical", "offset of this address through its mapping")
